@@ -234,6 +234,7 @@ func (s *ScanServer) respond(c *Cluster, rs *regionScanner, req *pb.ScanRequest)
 	if d%8 == 7 && rs.heartbeat < 3 {
 		rs.heartbeat++
 		s.Heartbeats++
+		resp.HeartbeatMessage = proto.Bool(true)
 		resp.MoreResultsInRegion = proto.Bool(true)
 		resp.MoreResults = proto.Bool(true)
 		return &Reply{Msg: resp}
@@ -260,7 +261,7 @@ func (s *ScanServer) respond(c *Cluster, rs *regionScanner, req *pb.ScanRequest)
 				if i == nfrag-1 {
 					rs.pending = append(rs.pending, cells)
 				} else {
-					rs.pending = append(rs.pending, cells[:1])
+					rs.pending = append(rs.pending, cells[:1:1])
 					cells = cells[1:]
 				}
 			}
@@ -288,6 +289,11 @@ func (s *ScanServer) respond(c *Cluster, rs *regionScanner, req *pb.ScanRequest)
 		done++
 	}
 	if remaining() {
+		if d%8 == 6 {
+			// time limit reached with rows left: flagged as a heartbeat, results travel along
+			resp.HeartbeatMessage = proto.Bool(true)
+			s.Heartbeats++
+		}
 		resp.MoreResultsInRegion = proto.Bool(true)
 		resp.MoreResults = proto.Bool(true)
 		return &Reply{Msg: resp, CellBlock: block}
